@@ -127,17 +127,28 @@ def generate(ctx):
 
 
 # ---------------------------------------------------------------------------- oracle
-def reg_enthalpy(reg):
-    """sum_i m_i T_i over interior + flowing-bypass nodes of a region"""
+def reg_state(reg):
+    """what one step of a region works with: per-node (mass flow, temperature) groups, each with the heat capacity a step
+    starting now evaluates (the coolant material at the group's own average temperature - bundle interior, each bypass gap,
+    or the low-fidelity region), computed on a private copy of the material"""
+    import copy
+    mat = copy.deepcopy(reg.coolant)
+
+    def cp_at(t):
+        mat.update(float(t))
+        return float(mat.heat_capacity)
+    groups = []
     if reg.is_rodded:
-        h = float(np.dot(reg.sc_mfr, reg.temp['coolant_int']))
+        groups.append((np.array(reg.sc_mfr, dtype=float), reg.temp['coolant_int'].copy(), cp_at(reg.avg_coolant_int_temp)))
         if reg.n_bypass > 0 and np.sum(reg.byp_flow_rate) > 0:
+            tb = reg.avg_coolant_byp_temp
             for b in range(reg.n_bypass):
                 mb = reg.byp_flow_rate[b] * reg.area['coolant_byp'][b] / reg.total_area['coolant_byp'][b]
-                h += float(np.dot(mb, reg.temp['coolant_byp'][b]))
-        return h
-    n = reg.temp['coolant_int'].shape[0]
-    return float(np.sum(reg.temp['coolant_int']) * reg.flow_rate / n)
+                groups.append((np.array(mb, dtype=float), reg.temp['coolant_byp'][b].copy(), cp_at(tb[b])))
+    else:
+        n = reg.temp['coolant_int'].shape[0]
+        groups.append((np.full(n, reg.flow_rate / n), reg.temp['coolant_int'].copy(), cp_at(reg.avg_coolant_int_temp)))
+    return groups
 
 
 def reg_tallies(reg):
@@ -155,8 +166,14 @@ def oracle_reactor(ctx, rng, n_cases, max_steps=400):
         if n_core_rings > 1:
             pos = [p for p in pos if rng.random() < 0.6] or pos[:1]
         gm = rng.choice(['flow', 'none', 'no_flow', 'flow'])
+        const_props = ci % 2 == 0
         case = gi.random_case(rng, positions=pos, n_types=rng.choice([1, 2]), gap_model=gm, length=rng.uniform(0.1, 0.4),
-                              const_props=True, flow_range=(0.05, 6.0))
+                              const_props=const_props, flow_range=(0.05, 6.0) if const_props else (0.3, 6.0))
+        if not const_props:
+            # temperature-dependent coolant: the balance is taken with the heat capacity each step starts with (the property's
+            # "property lag"); flows in the transition regime make the flow split depend on the local Reynolds number
+            case['core']['coolant_material'] = rng.choice(['sodium', 'sodium', 'nak'])
+            case['core']['coolant_inlet_temp'] = round(rng.uniform(600, 700), 2)
         case['core']['bypass_fraction'] = round(10 ** rng.uniform(-2.5, -1), 5)
         for tn in list(case['types']):
             u = rng.random()
@@ -199,21 +216,32 @@ def oracle_reactor(ctx, rng, n_cases, max_steps=400):
                 active[a.id] = idx
                 for k, reg in enumerate(a.region):
                     key = (a.id, k)
-                    H = reg_enthalpy(reg) * reg.coolant.heat_capacity
+                    if k != idx:
+                        state.pop(key, None)
+                        continue
+                    G = reg_state(reg)
                     E = reg_tallies(reg)
-                    if key in state and i > 0 and k == idx:
-                        dH = H - state[key][0]
-                        dE = E - state[key][1]
-                        scale = max(abs(dH), abs(dE), 1e-9 * abs(H), 1e-12)
+                    if key in state and i > 0:
+                        G0, E0 = state[key]
+                        # enthalpy-flow rise over the step: flows and heat capacity the step started with
+                        dH = sum(cp0 * float(np.dot(m0, t1 - t0)) for (m0, t0, cp0), (m1, t1, cp1) in zip(G0, G))
+                        # the flows the next step starts with carry the same enthalpy (no redistribution between steps)
+                        jump = sum(cp0 * float(np.dot(m1 - m0, t1)) for (m0, t0, cp0), (m1, t1, cp1) in zip(G0, G))
+                        dE = E - E0
+                        scale = max(abs(dH), abs(dE), 1e-12)
                         res = abs(dH - dE) / scale
-                        nonlocal_w[0] = max(nonlocal_w[0], res)
+                        resj = abs(jump) / scale
+                        nonlocal_w[0] = max(nonlocal_w[0], res, resj)
                         rk = type(reg).__name__ + (":6node" if getattr(reg, 'model', '') == '6node' else "") + (
-                            ":conv_approx" if getattr(reg, '_conv_approx', False) else "")
+                            ":conv_approx" if getattr(reg, '_conv_approx', False) else "") + ("" if const_props else ":Tdep")
                         seen_kinds[rk] = seen_kinds.get(rk, 0) + 1
-                        if res > 1e-7 and not bad:
+                        floor = 1e-12 * abs(G[0][2] * float(np.dot(G[0][0], G[0][1])))      # round-off of the temperature itself
+                        if res > 1e-7 and abs(dH - dE) > floor and not bad:
                             bad.append(dict(kind="step", asm=a.id, step=i, z=z, dz=dz, dH=dH, tallied=dE, rel_residual=res,
-                                            region=rk))
-                    state[key] = (H, E)
+                                            region=rk, n_bypass=int(getattr(reg, 'n_bypass', 0))))
+                        elif resj > 1e-7 and not bad:
+                            bad.append(dict(kind="jump", asm=a.id, step=i, z=z, dz=dz, dH=dH, jump=jump, rel_residual=resj, region=rk))
+                    state[key] = (G, E)
             if i >= max_steps or bad:
                 raise StopIteration
         nonlocal_w = [0.0]
@@ -221,6 +249,8 @@ def oracle_reactor(ctx, rng, n_cases, max_steps=400):
             gi.sweep(r, cb)
         except StopIteration:
             pass
+        except SystemExit:
+            ctx.count("oracle_sweep_stopped_by_dassh")       # e.g. coolant temperature left the property table
         worst = max(worst, nonlocal_w[0])
         ctx.evals += 1
         ctx.count("oracle_steps", min(len(r.z) - 1, max_steps))
@@ -232,6 +262,11 @@ def oracle_reactor(ctx, rng, n_cases, max_steps=400):
                 ctx.violation("c01-carry-over:%s->%s" % (b['frm'], b['to']),
                               "assembly %d: mixed-mean coolant temperature %.9g K before the region change, %.9g K after"
                               % (b['asm'], b['t_before'], b['t_after']), case=case, detail=b)
+            elif b['kind'] == "jump":
+                ctx.violation("c01-flow-redistributed:%s" % b['region'],
+                              "assembly %d after step %d: the subchannel flows the next step starts with carry %.6g W more enthalpy than "
+                              "the flows this step ended with (step heat %.6g W): flow is moved between subchannels without its "
+                              "enthalpy" % (b['asm'], b['step'], b['jump'], b['dH']), case=case, detail=b)
             else:
                 ctx.violation("c01-step-residual:%s" % b['region'],
                               "assembly %d step %d: enthalpy rise %.6g W vs tallied power+duct heat %.6g W (rel %.2g)" % (
